@@ -249,19 +249,20 @@ CHECKS["C04"] = {
 # VerifC02(n0, faults, actions, cacheLoss)
 c02_cases = [
     case("n0=0 one interleaved action, no faults", "VerifC02", [0, 0, 1, 0], ["done", "ack after the round", "duplicate"], Q),
-    case("n0=0 one fault, one interleaved action", "VerifC02", [0, 1, 1, 0], ["done", "fatal"], Q),
-    case("n0=255 one fault, one interleaved action", "VerifC02", [255, 1, 1, 0], ["done"], Q),
+    case("n0=0 one fault, polls after the round", "VerifC02", [0, 1, 0, 0], ["done", "fatal"], Q),
+    case("n0=255 one fault, polls after the round", "VerifC02", [255, 1, 0, 0], ["done"], Q),
+    case("n0=0 one fault, one interleaved action", "VerifC02", [0, 1, 1, 0], ["done", "fatal"], T),
     case("n0=1 two interleaved actions", "VerifC02", [1, 0, 2, 0], ["done", "duplicate"], T),
-    case("n0=255 two faults, two actions", "VerifC02", [255, 2, 2, 0], ["done"], T),
+    case("n0=255 two faults, one action", "VerifC02", [255, 2, 1, 0], ["done"], T),
 ]
 c07_cases = [
     case("n0=0 duplicates at every yield point", "VerifC02", [0, 0, 1, 0], ["done", "duplicate"], Q),
     case("n0=1 cache loss or rollback", "VerifC02", [1, 0, 1, 1], ["done", "duplicate"], Q),
-    case("n0=1 failed round then resubmission", "VerifC02", [1, 1, 1, 0], ["done", "fatal"], Q),
+    case("n0=1 failed round then resubmission (cache rollback allowed)", "VerifC02", [1, 1, 0, 1], ["done", "fatal"], Q),
     case("acknowledged indexes under eviction, pool size 1", "VerifC17Pool", [1, 3], ["sequenced", "eviction"], Q),
     case("acknowledged indexes under eviction, pool size 2", "VerifC17Pool", [2, 4], ["sequenced", "eviction"], Q),
     case("n0=255 two actions with cache loss", "VerifC02", [255, 0, 2, 1], ["done"], T),
-    case("n0=2 two faults two actions", "VerifC02", [2, 2, 2, 0], ["done"], T),
+    case("n0=2 one fault one action with cache loss", "VerifC02", [2, 1, 1, 1], ["done"], T),
 ]
 CHECKS["C02"] = {
     "level": "model_checking",
@@ -326,9 +327,114 @@ CHECKS["C14"] = {
                     "lock store = a correct CAS register with fault injection"],
 }
 
+# ---------------------------------------------------------------- C11
+c11_cases = [case("sign and open, size kind %d" % k, "VerifC11SignOpen", [k], ["signed"], Q if k in (0, 3, 5) else T) for k in range(6)]
+c11_cases += [
+    case("signature blob of the valid length (28 bytes)", "VerifC11Blob", [28], ["accepted", "rejected"], Q),
+    case("signature blob one byte longer", "VerifC11Blob", [29], ["rejected"], Q),
+    case("signature blob one byte shorter", "VerifC11Blob", [27], ["rejected"], Q),
+    case("signature blob 12 bytes", "VerifC11Blob", [12], ["rejected"], Q),
+    case("signature blob 40 bytes", "VerifC11Blob", [40], ["rejected"], T),
+    case("text mutation, origin line", "VerifC11Text", [0, 18], ["accepted", "rejected"], Q),
+    case("text mutation, size line", "VerifC11Text", [18, 23], ["accepted", "rejected"], Q),
+    case("text mutation, hash line (first 8)", "VerifC11Text", [23, 31], ["accepted", "rejected"], Q),
+    case("text mutation, hash line (rest)", "VerifC11Text", [31, 68], ["accepted", "rejected"], T),
+    case("extension line, trailing bytes, foreign origin, other size/key", "VerifC11Extra", [], ["checked"], Q),
+]
+CHECKS["C11"] = {
+    "level": "model_checking",
+    "jobs": [dict(CTLOG, harness=WORLD + ["internal_ctlog/zz_verif_c11.go"], native=False, cases=c11_cases)],
+    "bounds": {"quick": "sign/open: tree sizes 0, 256, 2^62-1 with symbolic 32-byte root and symbolic 63-bit timestamp; signature blobs: every byte string of length 12, 27, 28, 29; "
+                        "text: one arbitrary byte at each position of the origin, size and first hash characters; extension line, 2 arbitrary trailing bytes, foreign origin/size/key",
+               "thorough": "all six sizes, blob length 40, every position of the hash line"},
+    "assumptions": [IDEAL_HASH, "ideal deterministic ECDSA / ML-DSA signatures: Verify accepts exactly the recorded signature of a recorded (key, digest) pair",
+                    "ct.SerializeSTHSignatureInput is the fixed RFC 6962 §3.5 layout (its reflection-based TLS encoder is not executed)", "note.Sign/Open, torchwood checkpoint and cosignature code, cryptobyte and base64 are executed from their real source (base64 of symbolic payloads through the interning oracle)",
+                    "RSA keys and key types other than ECDSA P-256 are outside the claim; randomness (grease, signer order) is fixed"],
+}
+
+# ---------------------------------------------------------------- C06 / C08
+ALLW = WORLD + ["internal_ctlog/zz_verif_c01.go", "internal_ctlog/zz_verif_c03.go", "internal_ctlog/zz_verif_c02.go", "internal_ctlog/zz_verif_c17.go"]
+c06_cases = [
+    case("two instances, n0=0", "VerifC06TwoInstances", [0, 0], ["done", "A-lost", "B-lost"], Q),
+    case("two instances, n0=1, loser and winner continue", "VerifC06TwoInstances", [1, 1], ["done", "A-lost", "B-lost"], Q),
+    case("two instances, n0=255", "VerifC06TwoInstances", [255, 1], ["done", "A-lost", "B-lost"], T),
+] + [case("start-up state %d" % st, "VerifC06Startup", [st, 1], ["checked"], Q) for st in range(9)] + [
+    case("start-up state %d, n0=255" % st, "VerifC06Startup", [st, 255], ["checked"], T) for st in (2, 3, 8)]
+CHECKS["C06"] = {
+    "level": "model_checking",
+    "jobs": [dict(CTLOG, harness=ALLW + ["internal_ctlog/zz_verif_c06.go"], native=False, cases=c06_cases)],
+    "bounds": {"quick": "two instances with one submission each; instance B runs one whole round at any storage/lock operation of A's round (or after it); pre-states 0 and 1; start-up states: create over existing lock entry / published checkpoint, stale lock store, same size different root (symbolic root), foreign key, foreign origin, missing lock entry, missing checkpoint",
+               "thorough": "pre-state 255"},
+    "assumptions": WORLD_ASSUME + ["instances share no memory; B's round is interleaved as a whole (round granularity) at every operation of A's round — finer interleavings commute except through the lock store",
+                                   "a publication step-back by the losing... cannot occur here because the loser never reaches the upload; cmd/sunlight YAML handling is outside the claim"],
+}
+# VerifC08Tamper(n0, budget, target)
+c08_cases = [
+    # VerifC08Tamper(n0, budget, target, positions)
+    case("n0=1 one tampered object: checkpoint", "VerifC08Tamper", [1, 1, 1, 24], ["refused to load", "loaded", "signed"], Q),
+    case("n0=3 one tampered object: hash tiles", "VerifC08Tamper", [3, 1, 2, 24], ["refused to load", "loaded", "signed"], Q),
+    case("n0=255 one tampered object: hash tiles", "VerifC08Tamper", [255, 1, 2, 24], ["refused to load", "loaded", "signed"], Q),
+    case("n0=1 one tampered object: data tile (first windows)", "VerifC08Tamper", [1, 1, 3, 4], ["refused to load", "loaded", "signed"], Q),
+    case("n0=1 one tampered object: staging bundle (first windows)", "VerifC08Tamper", [1, 1, 4, 3], ["refused to load", "loaded", "signed"], Q),
+    case("n0=1 one tampered object: issuer", "VerifC08Tamper", [1, 1, 5, 24], ["loaded", "signed"], Q),
+    case("n0=1 one tampered object: data tile (all windows)", "VerifC08Tamper", [1, 1, 3, 24], ["refused to load", "loaded", "signed"], T),
+    case("n0=1 one tampered object: staging bundle (all windows)", "VerifC08Tamper", [1, 1, 4, 24], ["refused to load", "loaded", "signed"], T),
+    case("n0=3 two tampered objects: hash tiles", "VerifC08Tamper", [3, 2, 2, 24], ["refused to load", "loaded", "signed"], T),
+    case("n0=256 one tampered object: data tile", "VerifC08Tamper", [256, 1, 3, 24], ["refused to load", "loaded", "signed"], T),
+]
+CHECKS["C08"] = {
+    "level": "model_checking",
+    "jobs": [dict(CTLOG, harness=ALLW + ["internal_ctlog/zz_verif_c08.go"], native=False, cases=c08_cases)],
+    "bounds": {"quick": "pre-states of 2 and 4 leaves; one object per class (checkpoint, right-edge hash tiles, right-edge data tile, staging bundle with the lock ahead of storage, issuer) is deleted, swapped with another object, replaced by fully symbolic bytes of the same length, or truncated at a symbolic point; restart and one more round",
+               "thorough": "two tampered objects of any class; pre-states 255 and 256 (arbitrary 8-byte window for long objects)"},
+    "assumptions": WORLD_ASSUME + ["tampering is applied to what Fetch returns during the restart and the following round", "comparison is on Merkle-covered content; a tampered data tile that keeps the covered fields but alters uncovered ones is accepted by LoadLog (observation, DESIGN.md)"],
+}
+
 # ---------------------------------------------------------------- manifest texts
 NOT_APPLICABLE = {}
+_WORLD_NOTE = ("environment = the ctlog world of DESIGN.md §3.1: in-memory object storage and a correct CAS lock store with per-operation crash/fault injection, "
+               "symbolic clock, ideal hashing and signatures, contracts for tar/gzip/JSON/SQLite/X.509 parsing; bounds in the evidence file")
 MANIFEST_TEXT = {
+    "C01": {
+        "text": "bounded symbolic execution of the real CreateLog, LoadLog, sequence/sequencePool, signTreeHead and openCheckpoint against the ctlog world: every placement of a fault (applied or not) or crash over the storage/lock operations and every clock reading are symbolic; monitors at every lock commit (sizes never shrink, timestamps strictly increase, equal sizes have equal roots) and at every publication (committed first), then an RFC 6962 prefix audit of every checkpoint in both histories by an independent Merkle tree hash",
+        "note": _WORLD_NOTE,
+    },
+    "C02": {
+        "text": "bounded symbolic execution of addLeafToPool, the wait closures and sequencePool with submitters and waiters run at every yield point of the round (each storage/lock operation, cache writes, the pause hook): every acknowledgement is checked at its instant against the published checkpoint and the stored leaf, again after a second round and after a restart",
+        "note": _WORLD_NOTE + "; submitters are atomic sections at yield points; the SCT bytes assembled by the HTTP handler are checked by C09's harness",
+    },
+    "C03": {
+        "text": "bounded symbolic execution of one sequencing round and of the recovery (LoadLog, applyStagedUploads) with a crash before any storage/lock operation of the round or of the recovery itself (up to 2 crashes), plus faults: recovery must succeed once failures stop, storage must then hold byte-exact every tile of the committed tree, sequencing must resume, acknowledged entries must still be at their index, and every Discard is checked against the published size at its instant",
+        "note": _WORLD_NOTE + "; strictly increasing clock; crash = fail-stop disconnection at operation boundaries",
+    },
+    "C04": {
+        "text": "same executions as C03 with the storage monitors as the subject: at every publication of a checkpoint an independent oracle recomputes every hash tile (all levels), data tile, names tile and issuer object the tree needs (RFC 6962 hashing, independent TileLeaf encoder, closed-form tile coordinates) and compares them byte for byte with storage; immutable objects are never rewritten with different bytes; only staging bundles are discarded",
+        "note": _WORLD_NOTE + "; entry shapes: certificate, precertificate, 1-2 issuers, unparseable certificates",
+    },
+    "C06": {
+        "text": "bounded symbolic execution of two Log instances with the same key over one lock store and object storage: instance B runs a whole sequencing round at any storage/lock operation of instance A's round; exactly one commits, the other returns the fatal error and acknowledges nothing, the lock history stays one monotone chain and the prefix audit holds; plus CreateLog over an existing log and every refused start-up state of LoadLog (stale lock store, same size with a symbolic different root, foreign key, foreign origin, missing entries) with no write performed",
+        "note": _WORLD_NOTE + "; interleaving at round granularity for instance B (instances share no memory and interact only through the lock store CAS, which is covered at every position)",
+    },
+    "C08": {
+        "text": "bounded symbolic execution of LoadLog (all verification branches), uploadIssuer, applyStagedUploads and a following round while an adversary controls what Fetch returns for an object of each class (checkpoint, right-edge hash tiles, data tile, staging bundle with the lock ahead of storage, issuer): deleted, swapped/rolled back, replaced by fully symbolic bytes (8-byte symbolic windows for long objects), truncated; the log refuses to load, stops, or the next committed checkpoint is the Merkle tree hash of the untampered committed leaves plus the newly sequenced entry",
+        "note": _WORLD_NOTE + "; ideal hashing makes 'verification passed' imply byte equality of Merkle-covered content; uncovered content (fingerprints, names) may be altered without contradicting C08 (observation in DESIGN.md); byte-level mutation of the signed checkpoint itself is C11",
+    },
+    "C07": {
+        "text": "bounded symbolic execution of the deduplication paths (current pool, in-sequencing map, cache) with up to five submissions of symbolic bytes, so that every duplicate pattern is decided by the solver, placed before, during (every yield point) and after rounds, across cache rollback to any earlier state, failed rounds and a restart; plus admission under eviction; equal entries get the same index and timestamp, each acknowledged index holds the entry, and leaves are assigned exactly once",
+        "note": _WORLD_NOTE + "; the legacy 128-bit cache table fallback and cmd/recompute-cache's duplicate key function are not exercised (stated in DESIGN.md)",
+    },
+    "C11": {
+        "text": "bounded symbolic execution of signTreeHead, digitallySign, NewRFC6962InjectedSigner/Verifier, RFC6962SignatureTimestamp and openCheckpoint: sign-then-open for symbolic root and timestamp with an independent STH serializer and signature check; every signature blob of the lengths around the valid one is accepted only if it is the canonical encoding of the valid signature; a checkpoint text with one arbitrary byte at any position, an extension line, trailing bytes, a foreign origin, size or key is accepted only if an independent parser reads the signed tuple from it",
+        "note": "ideal ECDSA/ML-DSA (Verify accepts exactly recorded signatures); fixed STH layout for ct.SerializeSTHSignatureInput; ECDSA keys only; note/torchwood/cryptobyte/base64 code executed for real",
+    },
+    "C14": {
+        "text": "bounded symbolic execution of processAddCheckpointRequest and updateCheckpoint (with the real note.Open/Sign, tlog.CheckTree and torchwood cosigners) over a forked log: sequences of requests with symbolic old size, new size, branch, proof and signature kind, lock/storage faults (applied or not) and witness restarts; all cosigned or published checkpoints lie on one branch with non-decreasing sizes, a checkpoint is recorded before its cosignature is released or published, and refusals carry the protocol's answers",
+        "note": "logs of 3 (quick) / 5 (thorough) leaves; ideal hashing and signatures; witness configuration JSON modelled; concurrent requests = request orderings (updateCheckpoint is one critical section)",
+    },
+    "C17": {
+        "text": "bounded symbolic execution of addLeafToPool (size check, eviction, cancel channels), the wait closures, sequence and RunSequencer under a cooperative goroutine scheduler: arrival sequences with symbolic priorities and bytes into pools of size 0-3 with the eviction victim chosen by a symbolic map-iteration start; every arrival is checked against the admission rule, evicted entries are never sequenced, every submitter gets exactly one outcome, and after a stop (cancellation, read-only date with symbolic time, fatal lock error) every pending and future submission fails and nothing more is committed",
+        "note": _WORLD_NOTE + "; virtual time (manual ticker, harness-controlled time.Since); the 503/410 HTTP mapping is checked by C09's harness",
+    },
     "C10": {
         "text": "bounded symbolic execution of the real codec functions (readTileLeaf, AppendTileLeaf, MerkleTreeLeaf, Marshal/ParseExtensions, TilePath/ParseTilePath and the cryptobyte/tlog/strconv code below them) over fully symbolic byte strings, entries and tile coordinates; every path's assertions are discharged by the SMT solver, so the claim holds for every input within the stated length bounds",
         "note": "bounds: byte strings up to 32 (quick) / 48 (thorough) fully symbolic bytes plus shape-split longer entries; tile index N<1000 (quick) / 10^6 (thorough); decimal formatting of symbolic integers by fmt is modelled by the engine",
